@@ -129,16 +129,24 @@ fn oracle(c: &Case, st: &mut Stats) -> Result<(), String> {
   let nrep = auxes.len().min(t as usize - 1).max(1);
   let auxes = &auxes[..nrep.max(1)];
   let mut reps: Vec<(Message, Vec<u8>, Vec<u8>)> = Vec::new(); // (report, payload, ciphertext)
+  let mut overhead_seen: Option<usize> = None;
   for a in auxes {
     let r = starx::report(&g, &rnd, Some(a))?;
     let payload = layout::build_payload(&c.m, Some(a));
     let ct = r.ciphertext.to_bytes();
-    if ct.len() != payload.len() {
-      return Err(format!(
-        "ciphertext length {} differs from the payload length {} (reveals more or less than the length of the associated data)",
-        ct.len(),
-        payload.len()
-      ));
+    // the ciphertext may be longer than the payload by a constant (nonce, tag), nothing else
+    if ct.len() < payload.len() {
+      return Err(format!("ciphertext ({} bytes) is shorter than the payload ({} bytes)", ct.len(), payload.len()));
+    }
+    let overhead = ct.len() - payload.len();
+    match overhead_seen {
+      None => overhead_seen = Some(overhead),
+      Some(o) if o != overhead => {
+        return Err(format!(
+          "ciphertext overhead over the payload varies between reports of one case ({o} vs {overhead} bytes): the length reveals more than the length of the associated data"
+        ))
+      }
+      _ => {}
     }
     reps.push((r, payload, ct));
   }
@@ -193,7 +201,7 @@ fn oracle(c: &Case, st: &mut Stats) -> Result<(), String> {
     for j in i + 1..reps.len() {
       let (_, p1, c1) = &reps[i];
       let (_, p2, c2) = &reps[j];
-      let n = p1.len().min(p2.len());
+      let n = p1.len().min(p2.len()).min(c1.len()).min(c2.len());
       let d = match (0..n).find(|k| p1[*k] != p2[*k]) {
         Some(d) => d,
         None => continue, // one payload is a prefix of the other: nothing to compare
